@@ -1,6 +1,7 @@
 package props
 
 import (
+	"context"
 	stdjson "encoding/json"
 	"fmt"
 	"math/rand"
@@ -246,6 +247,32 @@ func c14RecursivePairs(c *rt.Ctx) {
 			}
 		}
 		c.NonTrivial("recursive-pair", fmt.Sprintf("%T", x))
+	}
+	// one field query (one hash) over types that share member names but not layouts, in every order
+	// of first use: each must be filtered by a program compiled for itself
+	seven := 7
+	same := []struct {
+		x    any
+		want string
+	}{{zoo.QSameA{K: 1, S: "a"}, `{"k":1}`}, {zoo.QSameB{S: "b", K: 2}, `{"k":2}`}, {zoo.QSameC{K: &seven, S: []string{"c"}}, `{"k":7}`},
+		{&zoo.QSameB{S: "pb", K: 3}, `{"k":3}`}, {[]any{zoo.QSameA{K: 4}, zoo.QSameC{K: &seven}}, `[{"k":4},{"k":7}]`}}
+	for round := 0; round < 3; round++ {
+		q, _ := gojson.BuildFieldQuery("k", gojson.FieldQueryString(fmt.Sprintf("zz%d_%d", c.Seed, round)))
+		ctx := gojson.SetFieldQueryToContext(context.Background(), q)
+		for i := range same {
+			e := same[(i+round)%len(same)]
+			if _, isSlice := e.x.([]any); isSlice {
+				continue // sub-queries are not carried into interface elements (C19's finding)
+			}
+			var got []byte
+			var gerr error
+			pan, msg, _ := rt.Guard(func() { got, gerr = gojson.MarshalContext(ctx, e.x) })
+			c.Eval(1)
+			if pan || gerr != nil || string(got) != e.want {
+				c.Violate(rt.Violation{Monitor: "self-ident", Entry: "shared-query", Kind: "encoded-by-foreign-program", Ctx: "MarshalContext",
+					Detail: fmt.Sprintf("%T under query [k]: got %s (err %v %s) want %s", e.x, got, gerr, msg, e.want), Sub: 200200 + round*10 + i})
+			}
+		}
 	}
 	// decode side: one destination type holding all of them
 	doc, _ := stdjson.Marshal(vals[0])
